@@ -19,7 +19,7 @@ RULE = ('case = device log table, a log configuration (0..26 variables over all 
         'create/append wire hash) for accepted configurations.')
 ASSUMPTIONS = ['firmware V2 block-creation layout: entries of (type:u8, id:u16); data packet = id, 24-bit timestamp, values',
                'for table variables the stored-type nibble may be the fetch type or the table type (the firmware ignores it)']
-REQUIRED = ['mon.refused_configurations_started_again', 'mon.configs_accepted', 'mon.configs_rejected', 'mon.create_messages', 'mon.append_messages',
+REQUIRED = ['mon.rejected_configs_used_anyway', 'mon.refused_configurations_started_again', 'mon.configs_accepted', 'mon.configs_rejected', 'mon.create_messages', 'mon.append_messages',
             'mon.data_packets_decoded', 'mon.flag_checks', 'mon.readd_checks', 'mon.synclogger_samples',
             'mon.rejected_then_readded_on_newer_firmware', 'mon.delivered_samples_rechecked_later',
             'mon.synclogger_first_sample_right_behind_start_ack',
@@ -199,6 +199,16 @@ def run(desc, ctx):
             ob['vars_after_add'] = [[(v.name, v.fetch_as, v.type) for v in lc.variables]]
             ob['first_id'] = lc.id
         if ob['accept_exc'] is not None:
+            # the application goes on with the configuration it was refused (it did not check, or it cleans up): nothing
+            # of it may reach the Crazyflie
+            t1 = len(spec.tx)
+            for op_ in ('start', 'stop', 'delete'):
+                try:
+                    getattr(lc, op_)()
+                except Exception:  # noqa
+                    pass
+                s.sleep(0.02)
+            ob['tx_after_reject'] = [(t[2], t[3].hex()) for t in spec.tx[t1:] if (t[2] >> 4) == 5]
             cf.close_link()
             return
         # ---- error injection on the device
@@ -341,6 +351,11 @@ def run(desc, ctx):
         ctx.count('mon.configs_rejected')
         if ob['tx_at_reject']:
             V('log:rejected-config-transmitted', {'packets': ob['tx_at_reject']})
+        if 'tx_after_reject' in ob:
+            ctx.count('mon.rejected_configs_used_anyway')
+            if ob['tx_after_reject']:
+                V('log:rejected-config-transmitted:when-started-stopped-or-deleted-afterwards',
+                  {'packets': ob['tx_after_reject'][:4], 'rejected_with': ob['accept_exc']})
         return
     ctx.count('mon.configs_accepted')
     has_mem = any(sp[0] == 'mem' for sp in specs)
